@@ -39,6 +39,11 @@ def run_scn(scn, on_step):
             for c, k in zip(cs, range(a, b)):
                 if c.timestamp is not None and sub[k % len(sub)]:
                     c.timestamp = c.timestamp + _td(microseconds=sub[k % len(sub)])
+        if scn.get("preread"):
+            # the caller has looked at its candles before handing them over (filtered / logged them by body size): whatever a Candle
+            # remembers about that look must not outlive a change of its values
+            for c in cs:
+                _ = (c.realbody, c.high_low, c.shadow_upper, c.shadow_lower, c.positive, c.negative)
         if for_append and enc == "dict":
             return [{"open": c.open, "high": c.high, "low": c.low, "close": c.close, "volume": c.volume, "timestamp": c.timestamp} for c in cs]
         if for_append and enc == "dict_iso":   # the stamp as an ISO-8601 string without offset: still a naive wall-clock time
@@ -111,6 +116,14 @@ def _check_scn(scn):
                 rec = (r[0], cv.get("open"), cv.get("high"), cv.get("low"), cv.get("close"), cv.get("volume"))
                 if not cm.tuples_equal([rec], [r], exact=True):
                     return {"step": j, "clause": "raw-recoverable", "observed": rec, "expected": r}
+        # the derived measurements every indicator / pattern reads (realbody, shadows, range) are those of the values the candle holds NOW
+        # (converted, merged): "readings are computed on the converted values"
+        for c in m.candles:
+            o_, h_, l_, c_ = c.open, c.high, c.low, c.close
+            want = (abs(o_ - c_), abs(h_ - l_), abs(h_ - c_) if o_ < c_ else abs(h_ - o_), abs(l_ - o_) if o_ < c_ else abs(l_ - c_))
+            have = (c.realbody, c.high_low, c.shadow_upper, c.shadow_lower)
+            if have != want:
+                return {"step": j, "clause": "measurements-of-current-values", "observed": have, "expected": want, "candle": str(c)[:160]}
         if scn.get("tf") and not scn.get("ha"):
             tfs = gen.tf_seconds(scn["tf"])
             stamps = [g[0] for g in got]
@@ -168,6 +181,9 @@ def gen_scn(rng, tf=True, fill=False, ha=False, life=False, size=60):
     (init, chunks), shape = gen.gen_schedule(rng, n)
     scn = {"tf": tfv, "fill": bool(fill and tfv), "ha": bool(ha), "stream": stream, "init": init, "chunks": chunks,
            "life": None, "extra_passes": rng.choice([0, 0, 1, 2])}
+    if rng.random() < 0.3:
+        scn["preread"] = True
+        meta["preread"] = True
     if tzoff is not None and stream and all(t[0] is not None for t in stream):
         scn["tzoff"] = tzoff   # aware stamps, fixed UTC offset: buckets align to the wall clock of the stamps' own zone
         meta["aware"] = True
